@@ -95,7 +95,7 @@ def shouldFormat (op : Options) (parent : Option ANode) : Nat → ANode → Nat 
               match f, cs with
               | 0, _ => false
               | _, [] => false
-              | f'+1, c :: rest => shouldFormat op parent fuel c i node.children || anyChild f' rest (i + 1)
+              | f'+1, c :: rest => shouldFormat op (some node) fuel c i node.children || anyChild f' rest (i + 1)     -- children in the context of their own parent
             anyChild (node.children.length + 1) node.children 0
       else true
 
